@@ -97,10 +97,15 @@ NOINL uint32_t K_timeout_event(uint32_t i)
     thread* th = K_thread(i);
     if (th->lock.try_lock() != 0) return 0;
     bool fired = false;
-    if (th->state == states::SLEEPING) { th->dequeue_ready_atomic(); K_blocked[i] = false; K_timedout[i] = true; K_wakes[i]++; fired = true; }
+    if (th->state == states::SLEEPING) {
+        th->dequeue_ready_atomic(); K_blocked[i] = false; K_timedout[i] = true; K_wakes[i]++; fired = true;
+        if (photon::now < th->ts_wakeup) photon::now = th->ts_wakeup;      // a deadline only expires once the clock has reached it
+    }
     th->lock.unlock();
     return fired;
 }
+// the runtime clock is monotone and may advance by any amount between two execution slices (a deadline that has passed fires at a later scheduling round)
+NOINL void K_tick() { photon::now = photon::now + nondet_u8(); }
 NOINL uint32_t K_is_blocked(uint32_t i) { return K_blocked[i]; }
 NOINL void K_try_unblock(uint32_t i) { }
 NOINL uint32_t K_can_timeout(uint32_t i) { return K_blocked[i] && K_finite[i]; }
